@@ -57,6 +57,7 @@ struct World {
     wlog: Vec<u8>,
     blocked: bool,
     vectored: bool,
+    eof_reads: usize,
 }
 
 /// complete records in the write log: (#EndRequest, #GetValuesResult + #Unknown)
@@ -122,7 +123,10 @@ impl AsyncRead for Reader {
             w.seg_off = 0;
         }
         if w.seg_i == w.segs.len() {
-            return Poll::Ready(Ok(0));          // client closed its side
+            // client closed its side; a task that keeps reading after EOF is spinning
+            w.eof_reads += 1;
+            assert!(w.eof_reads < 2000, "the connection task spins on a transport that reported EOF");
+            return Poll::Ready(Ok(0));
         }
         let (ge, gm, slen) = w.segs[w.seg_i];
         let (e, m) = count_records(&w.wlog);
@@ -354,7 +358,7 @@ fn conn_run(a: &Args) -> Args {
     let segs: Vec<(u128, u128, usize)> = segt.chunks(3).map(|c| (c[0], c[1], c[2] as usize)).collect();
     let world = Arc::new(Mutex::new(World {
         rscript: arg(a, 1), ri: 0, wscript: arg(a, 2), wi: 0, segs, seg_i: 0, seg_off: 0,
-        wire: bytes(&arg(a, 4)), pos: 0, wlog: Vec::new(), blocked: false, vectored: g(2) != 0,
+        wire: bytes(&arg(a, 4)), pos: 0, wlog: Vec::new(), blocked: false, vectored: g(2) != 0, eof_reads: 0,
     }));
     let scripts: Vec<Vec<u128>> = a.iter().skip(5).cloned().collect();
     let ev: Arc<Mutex<Args>> = Arc::new(Mutex::new(Vec::new()));
@@ -467,7 +471,7 @@ fn writers(a: &Args) -> Args {
         rscript: Vec::new(), ri: 0, wscript: arg(a, 1), wi: 0,
         segs: vec![(0, 0, wire.len()), (99, 0, 8)], seg_i: 0, seg_off: 0,
         wire: { let mut w = wire.clone(); w.extend_from_slice(&[1, 1, 0, 9, 0, 8, 0, 0]); w }, pos: 0,
-        wlog: Vec::new(), blocked: false, vectored: g(2) != 0,
+        wlog: Vec::new(), blocked: false, vectored: g(2) != 0, eof_reads: 0,
     }));
     let order = arg(a, 2);
     let specs: Vec<Vec<u128>> = a.iter().skip(4).cloned().collect();
